@@ -157,6 +157,11 @@ class Fn:
                     if s["k"] == "assign":
                         pl = s["place"]
                         d[pl["l"]].append(("assign", bi, si, s))
+                        rv = s["rv"]
+                        # `&mut local` / `&mut local.field`: whoever receives the borrow may rewrite the
+                        # local, so its value is no longer its single definition
+                        if rv["k"] in ("ref", "rawptr") and rv.get("mut") and "deref" not in rv["place"]["p"]:
+                            d[rv["place"]["l"]].append(("mutborrow", bi, si, s))
                 t = b["term"]
                 if t["k"] == "call":
                     d[t["dest"]["l"]].append(("call", bi, t))
@@ -206,8 +211,9 @@ class Fn:
             return self._expr_cache[l]
         ds = self.defs().get(l, [])
         # writes *through* a pointer local ((*_5).f = ..) do not redefine the local itself
-        whole = [d for d in ds if d[0] == "call" or not d[3]["place"]["p"]]
-        partial = [d for d in ds if d[0] == "assign" and d[3]["place"]["p"] and d[3]["place"]["p"][0] != "deref"]
+        whole = [d for d in ds if d[0] == "call" or (d[0] == "assign" and not d[3]["place"]["p"])]
+        partial = [d for d in ds if (d[0] == "assign" and d[3]["place"]["p"] and d[3]["place"]["p"][0] != "deref")
+                   or d[0] == "mutborrow"]
         if 1 <= l <= self.argc:
             if whole or partial:
                 r = ("phi", l, self.names.get(l))  # `mut` parameter reassigned in the body
@@ -238,6 +244,26 @@ class Fn:
         self._expr_cache[l] = r
         return r
 
+    def init_expr(self, l):
+        """initial whole definition of a local that is later mutated in place (('built', l, _))"""
+        whole = [d for d in self.defs().get(l, []) if d[0] == "call" or (d[0] == "assign" and not d[3]["place"]["p"])]
+        if len(whole) != 1:
+            return None
+        d = whole[0]
+        return self.expr_call(d[2]) if d[0] == "call" else self.expr_rvalue(d[3]["rv"])
+
+    def expand_built(self, e, depth=0):
+        """replace ('built', l, name) nodes by ('mutated', initial value) where a single initial
+        definition exists (iterators, accumulators)"""
+        if not isinstance(e, tuple) or depth > 12:
+            return e
+        if e and e[0] == "built":
+            i = self.init_expr(e[1])
+            if i is not None:
+                return ("mutated", self.expand_built(i, depth + 1))
+            return e
+        return tuple(self.expand_built(x, depth + 1) for x in e)
+
     def phi_alts(self, l):
         """alternatives of a multi-definition local, each with other phis left as leaves"""
         out = []
@@ -246,7 +272,7 @@ class Fn:
         for d in self.defs().get(l, []):
             if d[0] == "call":
                 out.append(self.expr_call(d[2]))
-            elif not d[3]["place"]["p"]:
+            elif d[0] == "assign" and not d[3]["place"]["p"]:
                 out.append(self.expr_rvalue(d[3]["rv"]))
         return out
 
@@ -700,6 +726,8 @@ def val(e):
         return ("adt", e[1], e[2], e[3], tuple(val(a) for a in e[4]))
     if k in ("tuple", "array"):
         return (k, tuple(val(a) for a in e[1]))
+    if k in ("mutated", "overflowed", "closure", "repeat"):
+        return tuple(val(x) if isinstance(x, tuple) else x for x in e)
     return e
 
 
@@ -817,7 +845,7 @@ def local_defs_with_guards(fn, l):
     for d in fn.defs().get(l, []):
         if d[0] == "call":
             out.append((d[1], guards_at(fn, d[1]), val(fn.expr_call(d[2]))))
-        elif not d[3]["place"]["p"]:
+        elif d[0] == "assign" and not d[3]["place"]["p"]:
             out.append((d[1], guards_at(fn, d[1]), val(fn.expr_rvalue(d[3]["rv"]))))
     return out
 
